@@ -195,6 +195,10 @@ json::Value exprJ(Ctx& X, const Expr* E, int depth = 0) {
     if (uo->getOpcode() == UO_LNot || uo->getOpcode() == UO_Not || uo->getOpcode() == UO_Minus || uo->getOpcode() == UO_AddrOf || uo->getOpcode() == UO_Deref)
       return json::Object{{"op", "un"}, {"o", UnaryOperator::getOpcodeStr(uo->getOpcode()).str()}, {"e", exprJ(X, uo->getSubExpr(), depth + 1)}};
   }
+  if (auto* rb = dyn_cast<CXXRewrittenBinaryOperator>(S)) {
+    auto df = rb->getDecomposedForm();
+    return json::Object{{"op", "bin"}, {"o", BinaryOperator::getOpcodeStr(df.Opcode).str()}, {"l", exprJ(X, df.LHS, depth + 1)}, {"r", exprJ(X, df.RHS, depth + 1)}};
+  }
   if (auto* oc = dyn_cast<CXXOperatorCallExpr>(S)) {
     auto op = oc->getOperator();
     if (oc->getNumArgs() == 2 && (op == OO_EqualEqual || op == OO_ExclaimEqual || op == OO_Less || op == OO_LessEqual || op == OO_Greater || op == OO_GreaterEqual || op == OO_AmpAmp || op == OO_PipePipe || op == OO_Amp || op == OO_Pipe))
@@ -246,6 +250,13 @@ json::Value eventOf(Ctx& X, const Stmt* st) {
     json::Array caps;
     for (auto& c : le->captures()) if (c.capturesVariable()) caps.push_back(c.getCapturedVar()->getNameAsString()); else if (c.capturesThis()) caps.push_back("this");
     return json::Object{{"k", "lambda"}, {"line", lineOf(X, le->getBeginLoc())}, {"fid", locStr(X, le->getBeginLoc()) + ":" + std::to_string(X.SM.getExpansionColumnNumber(le->getBeginLoc()))}, {"caps", std::move(caps)}};
+  }
+  if (auto* oce = dyn_cast<CXXOperatorCallExpr>(st)) {
+    if (oce->getOperator() == OO_Equal && oce->getNumArgs() == 2) {
+      json::Object o{{"k", "assign"}, {"o", "="}, {"line", lineOf(X, oce->getBeginLoc())}, {"lhs", pathOf(X, oce->getArg(0))}, {"rhs", exprJ(X, oce->getArg(1))}, {"opcall", true}};
+      std::string m = macroOf(X, oce->getBeginLoc()); if (!m.empty()) o["macro"] = m;
+      return std::move(o);
+    }
   }
   if (auto* ce = dyn_cast<CallExpr>(st)) {
     int id = X.nextEid++;
